@@ -8,7 +8,7 @@ from lang import *  # noqa
 from props.common import sub_rng, diff_runs, replay_generic, corpus_cases
 
 replay = replay_generic
-KEYS_ = ['k', 'v', 'নাম', 'len']
+KEYS_ = ['k', 'v', 'বয়স', 'len']
 OPS = [('lit', n) for n in range(0, 4)] + [('alias', None)] + [('read', k) for k in KEYS_] + [('write', k) for k in KEYS_] + [('del', k) for k in KEYS_] + \
       [('list', None), ('nest', None), ('readnon', None), ('delnum', None)]
 
@@ -114,6 +114,9 @@ def run(env, tier, seed, broken=None):
     big = '%s o = {h: 8, a: 1, g: 7, b: 2, f: 6, c: 3, e: 5, d: 4};\n%s %s(o);\n%s %s(o);\n%s o;\n%s(o, "c");\no.z = 9;\n%s %s(o);\n%s %s(o);\n' % (
         VAR, PRINT, KEYS, PRINT, VALUES, PRINT, DELETE, PRINT, KEYS, PRINT, VALUES)
     cases.append({'id': 'big', 'src': big, 'repeat': 12})
+    pct = '%s o = {a: "100%%", b: 2, c: 3};\n%s o;\no.d = "50%% ছাড়";\no.e = ["%%d", "%%!", 1];\n%s o;\n%s o.a;\n%s %s(o);\n%s(o, "a");\n%s o;\n' % (VAR, PRINT, PRINT, PRINT, PRINT, VALUES, DELETE, PRINT)
+    cases.append({'id': 'pct', 'src': pct})
+    expect['pct'] = (['map[a:100% b:2 c:3]', 'map[a:100% b:2 c:3 d:50% ছাড় e:[%d %! 1]]', '100%', '[100% 2 3 50% ছাড় [%d %! 1]]', 'map[b:2 c:3 d:50% ছাড় e:[%d %! 1]]'], False)
     expect['big'] = (['[a b c d e f g h]', '[1 2 3 4 5 6 7 8]', 'map[a:1 b:2 c:3 d:4 e:5 f:6 g:7 h:8]', '[a b d e f g h z]', '[1 2 4 5 6 7 8 9]'], False)
     mism, ri, rm = diff_runs(env, cases)
     nontriv = set()
